@@ -293,26 +293,34 @@ TEXT = {
  "C15": {
   "text": "Kernel-checked theorems over the Go-faithful model of handleMsg (size gate, dispatch, the uint64 request arithmetic of "
           "GetBlockHashes / GetBlockHashesFromNumber / GetBlocks incl. GetMomentumsByHeight's range and the nil/makeslice panics): "
-          "reply caps for every chain height and request (from-number only for Number+Amount >= 2), no panic (only for held hashes), "
-          "size gate before decoding, unknown codes refused without state change; negative witnesses for the two false clauses; "
-          "model tied to the tree by regenerated constants/AST facts and by a differential stream driving the real ProtocolManager.",
+          "reply caps for every chain height and every request without premise, no panic for every message (held or unknown hash, "
+          "every number and amount) on a node that holds its genesis momentum and fewer than 2^64-1 momentums (both premises shown "
+          "necessary), size gate before decoding, unknown codes refused without state change; the former counterexamples "
+          "(unknown hash; from-number (0,0), (0,1), (1,0)) are positive theorems; "
+          "model tied to the tree by regenerated constants/AST facts (incl. every write of request.Amount and the nil test of "
+          "GetMomentumsByHash) and by a differential stream driving the real ProtocolManager.",
   "design_ref": "§3 C15",
   "note": "Only the handler logic is proved. Survival on arbitrary bytes, allocation inside rlp, goroutine hygiene and liveness are "
           "differential testing against the total model, not proof; the rlpx frame reader and the discovery packet decoder have "
-          "monitor-only mutation streams, no theorem. Known findings "
-          "F7a (unknown hash panics) and F7b (Number+Amount<=1 returns the whole chain) are open.",
+          "monitor-only mutation streams, no theorem. Findings "
+          "F7a (unknown hash panicked) and F7b (Number+Amount<=1 returned the whole chain) are fixed in d85e958 and 99f2642; their "
+          "inputs are sent on every run and a recurrence is reported as a violation.",
   "technique": "Lean 4 proof (omega/case analysis) + regenerated constants and AST facts + differential correspondence over p2p.MsgPipe",
  },
  "C16": {
   "text": "Kernel-checked theorems over a line-by-line model of chainBridge.InsertChain on an abstract chain with a verification "
           "oracle: a node leaves its chain only when the delivered suffix links to an own momentum at most 30 below the frontier and "
           "claims a greater height; every new element passed the oracle in order and the chain stays linked; on a verification error "
-          "the index is the position in the original batch and the node holds exactly the verified prefix; known batches are no-ops; "
-          "no panic under stated premises (negative witnesses otherwise). Tied by AST facts (window 30, operators, returned indices) "
+          "the index is the position in the original batch and the node holds exactly the verified prefix; known batches (the empty "
+          "one included) are no-ops; no panic for any node and batch; a batch whose first unknown momentum claims height 0, 1 or "
+          "frontier+2 and above is refused with the link error and the node untouched; every non-verification refusal leaves the "
+          "node as it was. Tied by AST facts (window 30, operators, order of the tests incl. the emptiness and nil-target tests, "
+          "returned indices) "
           "and a differential stream feeding followers through the real InsertChain.",
   "design_ref": "§3 C16",
-  "note": "Verification itself (verifier/*, vm) is an oracle here. Known findings F7c (panics on empty / non-linking-by-height batches), "
-          "F7d (rollback before verification) are open; F7e (stale-parent momentum silently dropped and reported as success) was fixed in 9a5065f.",
+  "note": "Verification itself (verifier/*, vm) is an oracle here. Known finding F7d (rollback before verification) is open; "
+          "F7c (panics on empty / non-linking-by-height batches) was fixed in 264f72a, F7e (stale-parent momentum silently dropped "
+          "and reported as success) in 9a5065f.",
   "technique": "Lean 4 proof (induction over the batch) + AST facts + differential correspondence on real nodes + model-free monitors",
  },
 }
